@@ -11,6 +11,7 @@ import (
 	"fmt"
 	"math"
 	"os"
+	"runtime"
 	"strconv"
 	"strings"
 )
@@ -45,9 +46,12 @@ type Outcome struct {
 	Unconstrained []string       `json:"unconstrained"`
 	Stopped       string         `json:"stopped"`
 	Panic         string         `json:"panic,omitempty"`
+	AllocOver     bool           `json:"alloc_over,omitempty"` // more than 8x the allocation policy was allocated after SetAllocPolicy
 }
 
 type state struct {
+	allocLimit uint64
+	allocBase  uint64
 	vals    map[string]modelVal
 	occ     map[string]int
 	choices []uint64
@@ -96,6 +100,11 @@ func Run(path string, f func()) (out Outcome) {
 			} else {
 				st.out.Panic = fmt.Sprint(r)
 			}
+		}
+		if st.allocLimit > 0 {
+			var ms runtime.MemStats
+			runtime.ReadMemStats(&ms)
+			st.out.AllocOver = ms.TotalAlloc-st.allocBase > 8*st.allocLimit
 		}
 		out = st.out
 	}()
@@ -280,8 +289,17 @@ func render(a any) string {
 // IsConcrete is always true natively.
 func IsConcrete(v any) bool { return true }
 
-// SetAllocPolicy: see gosym (symbolic make sizes). No-op natively.
-func SetAllocPolicy(limitBytes int, candidates ...int) {}
+// SetAllocPolicy: see gosym (symbolic make sizes). Natively the bytes allocated from here on are measured
+// (runtime.MemStats.TotalAlloc); Outcome.AllocOver reports more than 8x the policy.
+func SetAllocPolicy(limitBytes int, candidates ...int) {
+	ensure()
+	var ms runtime.MemStats
+	runtime.ReadMemStats(&ms)
+	st.allocLimit, st.allocBase = uint64(limitBytes), ms.TotalAlloc
+}
+
+// LimitIsViolation: see gosym. Natively a hang / stack exhaustion shows as a crashed or timed-out replay.
+func LimitIsViolation(label string) {}
 
 // OrderRelevant marks a map whose iteration order is a quantified input. No-op natively.
 func OrderRelevant(m any) {}
